@@ -653,7 +653,12 @@ impl<P: RuntimeProvider + Send + Sync> SqliteZoneHandler<P> {
             let class: DNSClass = rr.dns_class;
             if class == self.in_memory.class() {
                 match rr.record_type() {
-                    RecordType::ANY | RecordType::AXFR | RecordType::IXFR => {
+                    RecordType::ANY
+                    | RecordType::AXFR
+                    | RecordType::IXFR
+                    // MAILB / MAILA: obsolete QUERY metatypes (RFC 2136 3.4.1.2)
+                    | RecordType::Unknown(253)
+                    | RecordType::Unknown(254) => {
                         return Err(ResponseCode::FormErr);
                     }
                     _ => (),
@@ -671,7 +676,10 @@ impl<P: RuntimeProvider + Send + Sync> SqliteZoneHandler<P> {
                         }
 
                         match rr.record_type() {
-                            RecordType::AXFR | RecordType::IXFR => {
+                            RecordType::AXFR
+                            | RecordType::IXFR
+                            | RecordType::Unknown(253)
+                            | RecordType::Unknown(254) => {
                                 return Err(ResponseCode::FormErr);
                             }
                             _ => (),
@@ -682,7 +690,12 @@ impl<P: RuntimeProvider + Send + Sync> SqliteZoneHandler<P> {
                             return Err(ResponseCode::FormErr);
                         }
                         match rr.record_type() {
-                            RecordType::ANY | RecordType::AXFR | RecordType::IXFR => {
+                            RecordType::ANY
+                    | RecordType::AXFR
+                    | RecordType::IXFR
+                    // MAILB / MAILA: obsolete QUERY metatypes (RFC 2136 3.4.1.2)
+                    | RecordType::Unknown(253)
+                    | RecordType::Unknown(254) => {
                                 return Err(ResponseCode::FormErr);
                             }
                             _ => (),
